@@ -6,6 +6,9 @@ import unicodedata
 import warnings
 from fractions import Fraction
 
+import contextlib
+import sys as _sys
+
 import common
 from common import Disagreement, Failure, req, hexs
 
@@ -44,12 +47,31 @@ ASSUMPTIONS = ['text is a str; unit_system is any hashable value (an unhashable 
 # translator
 
 
+_IMPORTED = []
+
+
+def _ambient_warnings():
+    """warnings are left to the ambient configuration (filters are not touched by the harness)"""
+    return contextlib.nullcontext()
+
+
+def _import_all():
+    """The tables string_to_bytes consults are public module-level state that any module of the package
+    may touch at import: look at them the way a long-running service does, after the whole package is in."""
+    if not _IMPORTED:
+        _IMPORTED.append(True)
+        import ambient
+        ambient.import_everything()
+
+
 def _strutils():
+    _import_all()
     from oslo_utils import strutils
     return strutils
 
 
 def _qemu_cls():
+    _import_all()
     from oslo_utils.imageutils import QemuImgInfo
     return QemuImgInfo
 
@@ -236,8 +258,8 @@ def ceil_fr(fr):
 def canon(fn, *a, **k):
     """('err', name) | ('int', n) | ('float', Fraction) | ('inf', neg) | ('nan',) | ('other', repr)"""
     try:
-        with warnings.catch_warnings():
-            warnings.simplefilter('ignore')
+        with _ambient_warnings():
+            pass
             r = fn(*a, **k)
     except Exception as e:
         return ('err', type(e).__name__)
@@ -284,18 +306,57 @@ def sys_bad_tuple(sys):
     return kind == 'py' and isinstance(NONSTR[name], tuple) and len(NONSTR[name]) != 1
 
 
+def bytes_warning_is_error():
+    """the interpreter runs with -bb: str() of a bytes object raises BytesWarning (an implicit input)"""
+    return _sys.flags.bytes_warning >= 2
+
+
+def sys_is_bytes(sys):
+    kind, name, _ = sys_parts(sys)
+    return kind == 'py' and isinstance(NONSTR[name], (bytes, bytearray))
+
+
 def sys_show(sys):
     kind, name, form = sys_parts(sys)
     if kind == 'omitted':
         return '<omitted>'
-    return ('%r' % name if kind == 'str' else name) + ('' if form == 'kw' else ' (positional)')
+    return ('%r' % name if kind == 'str' else name) + ('' if form == 'kw' else ' (positional)') + \
+        (' [a key found in the live UNIT_SYSTEM_INFO]' if kind == 'live' else '')
+
+
+def sys_value(sys):
+    kind, name, _ = sys_parts(sys)
+    if kind == 'str':
+        return name
+    if kind == 'py':
+        return NONSTR[name]
+    for k in list(_strutils().UNIT_SYSTEM_INFO):      # kind 'live': a non-str key of the live table, by repr
+        if repr(k) == name:
+            return k
+    return NONSTR.get(name, name)
+
+
+def live_unpinned_systems():
+    """unit-system descriptors for every key of the live public table that is not a documented system"""
+    out = []
+    for k in list(_strutils().UNIT_SYSTEM_INFO):
+        if isinstance(k, str):
+            if k not in PINNED_SYSTEMS:
+                out.append(['str', k])
+        else:
+            out.append(['live', repr(k)])
+    return out
+
+
+def live_unpinned_prefixes():
+    return sorted(k for k in _strutils().UNIT_PREFIX_EXPONENT if isinstance(k, str) and k not in ALL_PREFIXES)
 
 
 def sys_label(sys):
     kind, name, form = sys_parts(sys)
     if kind == 'str':
         return (name if name in SYSTEMS else 'unknown-str') + ('' if form == 'kw' else '/pos')
-    return ('non-str' if kind == 'py' else 'omitted') + ('' if form == 'kw' else '/pos')
+    return {'py': 'non-str', 'live': 'live-key'}.get(kind, 'omitted') + ('' if form == 'kw' else '/pos')
 
 
 def sys_in_domain(sys):
@@ -353,7 +414,7 @@ def impl_s2b(sys, text, ri):
         {'return_int': ri if isinstance(ri, bool) else FLAGS[ri]}
     if kind == 'omitted':
         return canon(f, text, **flag)
-    v = name if kind == 'str' else NONSTR[name]
+    v = sys_value(sys)
     if form == 'pos':
         return canon(f, text, v, *flag.values())
     return canon(f, text, unit_system=v, **flag)
@@ -365,8 +426,8 @@ _QCONV = []
 def _behaves_like_extract_bytes(fn):
     """fn maps the details text of a size field to an int the way the pinned `_extract_bytes` does"""
     try:
-        with warnings.catch_warnings():
-            warnings.simplefilter('ignore')
+        with _ambient_warnings():
+            pass
             if fn('64M (67108844 bytes)') != 67108844 or fn('2K') != 2048 or fn(' 512') != 512:
                 return False
             try:
@@ -389,8 +450,8 @@ def qemu_converter():
     import whitebox
     cls = _qemu_cls()
     try:
-        with warnings.catch_warnings():
-            warnings.simplefilter('ignore')
+        with _ambient_warnings():
+            pass
             obj = cls()
     except Exception as e:
         raise whitebox.HarnessBlind('QemuImgInfo() cannot be constructed: %s' % e)
@@ -419,8 +480,8 @@ def qemu_converter():
             raise whitebox.HarnessBlind('several QemuImgInfo methods behave like _extract_bytes')
     if found is None:
         def through(details):
-            with warnings.catch_warnings():
-                warnings.simplefilter('ignore')
+            with _ambient_warnings():
+                pass
                 return cls('image: x\nvirtual size: %s\n' % details).virtual_size
         try:
             ok = type(through('2K')) is int
@@ -485,7 +546,7 @@ def parse_reply(rep):
         return ('int', int(f[1]))
     if f[0] == 'inf':
         return ('inf', f[1] == '1')
-    if f[0] in ('ValueError', 'OverflowError', 'KeyError', 'TypeError'):
+    if f[0] in ('ValueError', 'OverflowError', 'KeyError', 'TypeError', 'BytesWarning'):
         return ('err', f[0])
     return (rep,)
 
@@ -547,7 +608,13 @@ def agree_s2b(py0, py1, mo0, mo1):
 # generators
 
 SYSTEMS = ['IEC', 'SI', 'mixed']
-UNKNOWN_SYSTEMS = ['iec', 'si', 'Mixed', '', 'binary', 'IEC ', 'SI\n']
+UNKNOWN_SYSTEMS = ['iec', 'si', 'Mixed', '', 'binary', 'IEC ', 'SI\n',
+                   # near misses of the legal names and names a sibling module might register
+                   'Iec', 'SI ', ' SI', 'MIXED', 'mixed ', 'qemu', 'QEMU', 'decimal', 'metric', 'IEC\n', 'IEC\x00',
+                   'iec60027', 'JEDEC', 'kib', 'default', 'None', 'IECSI']
+# the documented unit systems and prefixes (pinned as data: anything else found in the live public
+# tables at run time is, by the property, unknown / foreign and must be refused)
+PINNED_SYSTEMS = ('IEC', 'SI', 'mixed')
 LETTERS = 'KMGTPEZYRQ'
 ALL_PREFIXES = ['k', 'K', 'ki', 'Ki'] + [c + s for c in LETTERS[1:] for s in ('', 'i')]     # the 22 of the table
 FOREIGN = ['m', 'g', 'Kb', 'KI', 'ii', 'i', 'Bi', 'kk', 'KK', 'D', 'h', 'da', 'mi', 'Kii', 'iK', 'μ', 'Ｋ']
@@ -748,7 +815,10 @@ def s2b_line(sys, text, ri):
     fl = 'd' if (ri == 'omitted' and not isinstance(ri, bool)) else int(flag_truth(ri))
     if kind == 'str':
         return req('s2b', hexs(name), hexs(text), fl)
-    return req(('s2bt' if sys_bad_tuple(sys) else 's2bx') if kind == 'py' else 's2bd', hexs(text), fl)
+    if sys_is_bytes(sys):
+        # the model takes the interpreter's bytes-warning mode as an input
+        return req('s2bb', hexs(text), fl, int(bytes_warning_is_error()))
+    return req(('s2bt' if sys_bad_tuple(sys) else 's2bx') if kind in ('py', 'live') else 's2bd', hexs(text), fl)
 
 
 def s2b_lines(sys, text, f0=False, f1=True):
@@ -961,7 +1031,9 @@ def assess_s2b(sys, text, ri):
             return None
         if sys_key(sys) not in SPEC_ADMITS:
             return ('unknown-system', 'unit system %s is none of IEC, SI, mixed but the call %s instead of raising '
-                    'ValueError' % (sys_show(sys), 'raised ' + py[1] if py[0] == 'err' else 'returned ' + show(py)), None)
+                    'ValueError' % (sys_show(sys), 'raised ' + py[1] if py[0] == 'err' else 'returned ' + show(py)),
+                    'N7-bytes-unit-system-bb' if sys_is_bytes(sys) and bytes_warning_is_error()
+                    and py == ('err', 'BytesWarning') else None)
         if py[0] == 'err':
             return ('wrong-exception', 'text outside the grammar of %r raised %s, not ValueError' % (sys, py[1]), None)
         if text.endswith('\n') and spec(sys, text[:-1]) is not None:
@@ -1118,6 +1190,18 @@ def search_texts(ctx, n):
         for ri in (False, True):
             yield sys, '1KB\n' if sys != 'SI' else '1kB\n', ri
             yield sys, '-2.5bit\n', ri
+    # state of the public tables after the whole package is imported: every key that is not a documented
+    # unit system is an unknown one (ValueError), every exponent key that is not a documented prefix a foreign one
+    for key in live_unpinned_systems():
+        for text in ('1KB', '-7.9Mib', '.5B', '12bit', '1kB', '3b'):
+            for form in ('kw', 'pos'):
+                for ri in (False, True, '1', "''"):
+                    yield key + [form], text, ri
+    for pfx in live_unpinned_prefixes():
+        for sys in SYSTEMS:
+            for unit in UNITS:
+                for ri in (False, True):
+                    yield sys, '1' + pfx + unit, ri
     for text in ('1KB', '-7.9Mib', '.5B', '12bit', '1kB'):       # every kind of unit-system argument
         for ri in (False, True):
             for form in ('kw', 'pos'):
@@ -1244,7 +1328,7 @@ def search(ctx, seeds, full=False):
 # ---------------------------------------------------------------------------
 # known findings
 
-KNOWN_CLASSES = ('N3-float-rounding', 'N3-float-range')     # N3-trailing-newline is fixed: a violation if it returns
+KNOWN_CLASSES = ('N3-float-rounding', 'N3-float-range', 'N7-bytes-unit-system-bb')     # N3-trailing-newline is fixed: a violation if it returns
 
 
 def classify(ctx, failure, listed_findings):
